@@ -47,13 +47,21 @@ def morph_fn(desc):
     raise ValueError(law)
 
 
+def as_written(x, *key):
+    """a whole-number parameter as users write it: length=10, x0=-4, gamma=2, convcoef=1 are Python ints in half of the cases (deterministic coin)"""
+    import zlib
+    if isinstance(x, float) and x.is_integer() and abs(x) < 2 ** 31 and zlib.crc32(repr((x, key)).encode()) % 2 == 0:
+        return int(x)
+    return x
+
+
 def build_mesh(desc):
     import flowdyn.mesh as fmesh
     k = desc["kind"]
     if k == "uni":
-        return fmesh.unimesh(ncell=desc["n"], length=desc["length"], x0=desc.get("x0", 0.0))
+        return fmesh.unimesh(ncell=desc["n"], length=as_written(desc["length"], "L", desc["n"]), x0=as_written(desc.get("x0", 0.0), "x0", desc["n"]))
     if k == "refined":
-        return fmesh.refinedmesh(ncell=desc["n"], length=desc["length"], ratio=desc["ratio"],
+        return fmesh.refinedmesh(ncell=desc["n"], length=as_written(desc["length"], "L", desc["n"]), ratio=as_written(desc["ratio"], "r", desc["n"]),
                                  nratioa=desc["a"], nratiob=desc["b"])
     if k == "faces":
         xf = faces_of(desc)
@@ -69,7 +77,7 @@ def build_mesh(desc):
 
 def build_mesh2d(desc):
     import flowdyn.mesh2d as fmesh2d
-    return fmesh2d.unimesh(desc["nx"], desc["ny"], desc.get("lx", 1.0), desc.get("ly", 1.0))
+    return fmesh2d.unimesh(desc["nx"], desc["ny"], as_written(desc.get("lx", 1.0), "lx", desc["nx"]), as_written(desc.get("ly", 1.0), "ly", desc["ny"]))
 
 
 def mesh_ncell(desc):
@@ -237,20 +245,20 @@ def _build_model(desc):
     name = desc["name"]
     if name == "convection":
         import flowdyn.modelphy.convection as conv
-        return conv.model(desc["a"])
+        return conv.model(as_written(desc["a"], "a"))
     if name == "burgers":
         import flowdyn.modelphy.burgers as burgers
         return burgers.model()
     if name == "shallowwater":
         import flowdyn.modelphy.shallowwater as sw
-        return sw.shallowwater1d(g=desc.get("g", 9.81), source=build_sources(desc.get("source")))
+        return sw.shallowwater1d(g=as_written(desc.get("g", 9.81), "g"), source=build_sources(desc.get("source")))
     import flowdyn.modelphy.euler as euler
     if name == "euler1d":
-        return euler.euler1d(gamma=desc.get("gamma", 1.4), source=build_sources(desc.get("source")))
+        return euler.euler1d(gamma=as_written(desc.get("gamma", 1.4), "g1"), source=build_sources(desc.get("source")))
     if name == "nozzle":
-        return euler.nozzle(section_fn(desc["section"]), gamma=desc.get("gamma", 1.4), source=build_sources(desc.get("source")))
+        return euler.nozzle(section_fn(desc["section"]), gamma=as_written(desc.get("gamma", 1.4), "gn"), source=build_sources(desc.get("source")))
     if name == "euler2d":
-        return euler.euler2d(gamma=desc.get("gamma", 1.4), source=build_sources(desc.get("source")))
+        return euler.euler2d(gamma=as_written(desc.get("gamma", 1.4), "g2"), source=build_sources(desc.get("source")))
     raise ValueError(name)
 
 
